@@ -138,6 +138,13 @@ namespace c16
     }
   }
 
+  // only the local matrices / vectors (without the scaling factor), one list per cell
+  inline void show_locals(std::ostream& o, const std::vector<RecCall>& calls)
+  {
+    o << "L " << calls.size();
+    for(const auto& rc : calls) { o << " "; show_qv(o, rc.vals); }
+  }
+
   template<typename Space_>
   void show_dofmap(std::ostream& o, const Space_& space)
   {
@@ -156,6 +163,13 @@ namespace c16
   inline void show_csr_pattern(std::ostream& o, const MatrixQ& m)
   {
     o << m.rows() << " " << m.columns() << " ";
+    if(m.used_elements() == 0)
+    {
+      // an entry-free matrix owns no arrays (row_ptr() == nullptr): its row pointer array is all zero
+      o << m.rows() + 1; for(Index i = 0; i <= m.rows(); ++i) o << " 0";
+      o << " 0";
+      return;
+    }
     show_arr(o, m.row_ptr(), m.rows() + 1); o << " ";
     show_arr(o, m.col_ind(), m.used_elements());
   }
@@ -196,6 +210,7 @@ namespace c16
 
     // mode: 1 = everything (oracle stream), 0 = classic route, result only, 4 = job route, result only,
     //       2 = only what the cell loop hands to the scatter object (recording, no other call before it)
+    //       6 = only the local matrices / vectors of that recording
     const Config& g; int mode; bool full; std::ostream& o;
     MeshType mesh; TrafoType trafo;
 
@@ -242,10 +257,11 @@ namespace c16
     {
       TestSpace_ test(trafo); TrialSpace_ trial(trafo);
       Cubature::DynamicFactory cub(g.rule);
-      if(mode == 2)
+      if(mode == 2 || mode == 6)
       {
         RecMatrix rec(test.get_num_dofs(), trial.get_num_dofs());
         Assembly::BilinearOperatorAssembler::assemble_matrix2(rec, op, test, trial, cub, g.alpha);
+        if(mode == 6) { show_locals(o, rec.calls); return; }
         o << "T " << test.get_num_dofs() << " S " << trial.get_num_dofs() << " R "; show_rec(o, rec.calls);
         return;
       }
@@ -300,10 +316,11 @@ namespace c16
     {
       Space_ space(trafo);
       Cubature::DynamicFactory cub(g.rule);
-      if(mode == 2)
+      if(mode == 2 || mode == 6)
       {
         RecMatrix rec(space.get_num_dofs(), space.get_num_dofs());
         Assembly::BilinearOperatorAssembler::assemble_matrix1(rec, op, space, cub, g.alpha);
+        if(mode == 6) { show_locals(o, rec.calls); return; }
         o << "T " << space.get_num_dofs() << " S " << space.get_num_dofs() << " R "; show_rec(o, rec.calls);
         return;
       }
@@ -358,10 +375,11 @@ namespace c16
       Cubature::DynamicFactory cub(g.rule);
       PolyFunction<dim> ff(g.cv), fu(g.cu);
       Assembly::Common::ForceFunctional<PolyFunction<dim>> func(ff);
-      if(mode == 2)
+      if(mode == 2 || mode == 6)
       {
         RecVector rec(space.get_num_dofs());
         Assembly::LinearFunctionalAssembler::assemble_vector(rec, func, space, cub, g.alpha);
+        if(mode == 6) { show_locals(o, rec.calls); return; }
         o << "T " << space.get_num_dofs() << " S 0 R "; show_rec(o, rec.calls);
         return;
       }
